@@ -33,7 +33,14 @@ import (
 	"time"
 )
 
-const repoDir = "/repo"
+// repoDir is /repo; VERIF_REPO may point experiments (seeded changes applied
+// to a scratch copy) elsewhere.  Registered checks never set it.
+var repoDir = func() string {
+	if d := os.Getenv("VERIF_REPO"); d != "" {
+		return d
+	}
+	return "/repo"
+}()
 
 // verifDir is /verif unless VERIF_DIR points at a snapshot of it (background
 // experiments started with `vp run`); registered checks always run in /verif.
